@@ -524,6 +524,7 @@ func main() {
 		"failing marshalers: *NSFail = Namespace, Object(o, marshaler that adds k=1 and then returns the error 'boom'), Int64; *ArrFail = Int64, Array(a, marshaler that appends 1 and then returns 'boom'), String. Reference (documented in Field.AddTo / the encoders): the value as far as it got, properly closed ({\"k\":1} / [1]), followed by \"<key>Error\":\"boom\", all inside the namespaces open at that point; the namespace stays open for the fields that follow and for descendants; an observer context keeps the Field as given",
 		"reflected values: *Refl = Reflect(v, struct{N int; S string}), Int64; *NSRefl = Namespace, Reflect(v, struct) (sugared: key/value pair, zap.Any picks Reflect); reference = the JSON object {\"N\":..,\"S\":..} under its key; an observer context keeps the Field as given. Call-site fields of a log call that carries fields: round 1 = [Int64 c, String d], rounds 2 and 3 = [Reflect c, String d] (not in the two-round deepest space of a tier), so on every three-round space every node logs at least once with a reflected call-site field",
 		"caller's-slice oracle: every []Field / []interface{} handed to With, WithLazy, WithOptions(Fields(...)), Info and Infow is compared after the call with what the caller put in (Field by Field: Key, Type, Integer, String, Interface identity; spare capacity still zero), and the derivation slices again at the end of the program (lazy cores retain them)",
+		"caller re-uses its slices: after every eager derivation (With, WithOptions(Fields), sugared With) and every log call has returned and the slice was found unmodified, the harness overwrites every element of that argument slice in place with a POISON field, as a caller re-using a scratch slice does; the reference is unchanged (a logger's context is what was passed at the time of the call), so any POISON in a line or an observer context is reported as caller-slice-aliased. Slices handed to WithLazy are left alone (its contract is to keep the fields); an Again* step gets the original contents restored into the same slice object before the call. tee(json,observer)@AtomicLevel has no pre-derived root context (the observer branch starts empty)",
 		"tee(json,json): both sinks are checked against the same reference; a marshaler is evaluated by each branch, so no evaluation count is demanded there",
 		"(continued) names from {\"\",\"a\",\"b\"} plus, in the 'names' spaces, {\".a\",\"a.\",\".\",\"a.b\"}; sugared With/WithLazy receive key/value pairs (the namespace as a typed Field)",
 		"every entry is logged at Info (enabled in every family); the sampler's budget (first=2^30 per tick) is never exhausted",
